@@ -110,7 +110,10 @@ type Engine struct {
 }
 
 func NewEngine(cfg Config) *Engine {
-	return &Engine{Cfg: cfg, C: smt.NewCtx(), Contracts: map[string]*FnContract{}, ByFn: map[*ssa.Function]*FnContract{},
+	defer func() {}()
+	ctx := smt.NewCtx()
+	trueTerm, falseTerm = ctx.True(), ctx.False()
+	return &Engine{Cfg: cfg, C: ctx, Contracts: map[string]*FnContract{}, ByFn: map[*ssa.Function]*FnContract{},
 		Uninterp: map[*ssa.Function]bool{}, GhostAcc: map[*ssa.Function]bool{}, Overlay: map[string][]byte{}, GenSrc: map[string]string{},
 		strLits: map[string]*smt.Term{}, globalsSeen: map[string]*smt.Term{}, Stats: map[string]int{}, headStates: map[string]*State{}, UsedAssumed: map[string]bool{}, foreignGlobals: map[string]bool{}, vaMemo: map[*smt.Term][]*smt.Term{}, kindIdx: map[string]int{}}
 }
@@ -288,6 +291,9 @@ func (e *Engine) resolveTarget(name string) (*types.Func, error) {
 			}
 		}
 		o := pkg.Scope().Lookup(tn)
+		if o == nil && !strings.Contains(q, ".") {
+			o = types.Universe.Lookup(tn)
+		}
 		if o == nil {
 			return nil, fmt.Errorf("unknown type %q", q)
 		}
@@ -428,7 +434,9 @@ func (e *Engine) generate() error {
 				home = obj.Pkg()
 			}
 		}
-		if p := e.Pkgs[obj.Pkg().Path()]; p != nil {
+		if obj.Pkg() == nil {
+			// universe (error.Error)
+		} else if p := e.Pkgs[obj.Pkg().Path()]; p != nil {
 			info = p.TypesInfo
 			for _, f := range p.Syntax {
 				for _, d := range f.Decls {
@@ -846,7 +854,7 @@ func (e *Engine) resolve() error {
 	for key, fc := range e.Contracts {
 		bind := func(cf *ClauseFn) error {
 			home := e.SPkgs[MainPkg]
-			if fc.Obj != nil && e.SPkgs[fc.Obj.Pkg().Path()] != nil {
+			if fc.Obj != nil && fc.Obj.Pkg() != nil && e.SPkgs[fc.Obj.Pkg().Path()] != nil {
 				if f := e.SPkgs[fc.Obj.Pkg().Path()].Func(cf.Name); f != nil {
 					cf.Fn = f
 					return nil
@@ -901,7 +909,8 @@ func (e *Engine) resolve() error {
 			// locals of loop clauses
 			var loops []ast.Stmt
 			var info *types.Info
-			if p := e.Pkgs[obj2.Pkg().Path()]; p != nil {
+			if obj2.Pkg() == nil {
+			} else if p := e.Pkgs[obj2.Pkg().Path()]; p != nil {
 				info = p.TypesInfo
 				for _, f := range p.Syntax {
 					for _, d := range f.Decls {
